@@ -104,11 +104,17 @@ class KSet:
 
 
 class Holder:
-    def __init__(self, model, win, kset):
+    """A model together with its current configuration and the opacity / k-table objects it uses: every
+    object owns them (installed in the cache singletons for its own evaluations only)."""
+
+    def __init__(self, model, cfg, op=None):
         self.model = model
-        self.win = win
-        self.kset = kset
-        self.tables = None        # the k-table object this model has loaded (None: nothing loaded yet)
+        self.cfg = dict(cfg)
+        self.op = op              # cross-section mode: the Opacity object registered for this model
+        self.tables = None        # k-table mode: the table object this model has loaded (None: nothing loaded yet)
+
+    win = property(lambda s: s.cfg['window'])
+    kset = property(lambda s: s.cfg['kset'])
 
 
 class Window:
@@ -143,6 +149,7 @@ class WindowScenario(history.Scenario):
         vals = dict(window=self.windows, star_T=list(star_T), T=list(T), kset=list(self.ksets), planet_radius=list(radius))
         self.dims = [vals[s] for s in self.settings]
         self.clip_sizes = {}
+        self.twin_skipped = 0
         self._xref = {}
         press, temps, x = smooth_table(self.native, seed=7)
         self.xop = (press, temps, x)
@@ -154,6 +161,7 @@ class WindowScenario(history.Scenario):
         return c
 
     def _build(self, c, mode):
+        """-> Holder (a new model, its own opacity object)"""
         from taurex.cache import OpacityCache
         from taurex.model import EmissionModel, DirectImageModel, TransmissionModel
         from taurex.chemistry import TaurexChemistry, ConstantGas
@@ -161,13 +169,15 @@ class WindowScenario(history.Scenario):
         from taurex.contributions import AbsorptionContribution
         from taurex.planet import Planet
         from taurex.stellar import BlackbodyStar
+        op = None
         if mode == 'ktables':
             mode_only('ktables', c['kset'].path)
         else:
             mode_only('xsec')
             OpacityCache().clear_cache()
             p, t, x = c['kset'].xsec if c['kset'] is not None else self.xop
-            OpacityCache().add_opacity(GridOpacity(MOL, self.native, t, p, x))
+            op = GridOpacity(MOL, self.native, t, p, x)
+            OpacityCache().add_opacity(op)
         chem = TaurexChemistry(fill_gases=['H2', 'He'], ratio=0.17)
         chem.addGas(ConstantGas(MOL, 2e-4))
         tp = Isothermal(T=c['T']) if self.tprofile == 'iso' else NPoint(T_surface=c['T'], T_top=0.55 * self.defaults['T'])
@@ -182,7 +192,7 @@ class WindowScenario(history.Scenario):
             m = TransmissionModel(**kw)
         m.add_contribution(AbsorptionContribution())
         m.build()
-        return m
+        return Holder(m, c, op)
 
     def fresh(self, values):
         c = self._cfg(values)
@@ -190,13 +200,14 @@ class WindowScenario(history.Scenario):
             from taurex.cache.ktablecache import KTableCache
             mode_only('ktables', c['kset'].path)
             KTableCache().clear_cache()
-        return Holder(self._build(c, self.mode), c['window'], c['kset'])
+        return self._build(c, self.mode)
 
     # -- one setting changed through the public API
     def set(self, h, d, value, values):
         s = self.settings[d]
+        h.cfg[s] = value
         if s == 'window':
-            h.win = value
+            pass                          # an argument of model(wngrid=..)
         elif s == 'star_T':
             h.model.star.temperature = value
         elif s == 'T':
@@ -204,7 +215,6 @@ class WindowScenario(history.Scenario):
         elif s == 'planet_radius':
             h.model['planet_radius'] = value
         elif s == 'kset':                 # another directory of tables: new path, cache emptied
-            h.kset = value
             h.tables = None
 
     # -- evaluation
@@ -229,7 +239,10 @@ class WindowScenario(history.Scenario):
                     h.tables = None
                 kc.clear_cache()
         else:
+            from taurex.cache import OpacityCache
             mode_only('xsec')
+            OpacityCache().clear_cache()
+            OpacityCache().add_opacity(h.op)
             g, y = self._evaluate(h)
         if h.win.grid is not None:
             self.clip_sizes[h.win.label] = len(g)
@@ -240,18 +253,24 @@ class WindowScenario(history.Scenario):
     def _twin(self, h, g, y):
         """the statement of C20 on this evaluation: a degenerate table gives the cross-section spectrum of the
         same numbers (reference: a freshly built cross-section model evaluated once per configuration)."""
-        m = h.model
-        key = (h.kset.idx, h.win.label, float(m.star.temperature), float(m.planet.fullRadius), tuple(np.round(m.temperatureProfile, 9)))
+        key = tuple(repr(h.cfg[k]) for k in sorted(h.cfg))
         if key not in self._xref:
-            c = dict(self.defaults)
-            c.update(kset=h.kset, star_T=float(m.star.temperature))
-            xm = self._build(c, 'xsec')
-            xm.planet._radius = m.planet._radius
-            xm._temperature_profile = m._temperature_profile
-            gx, yx, _, _ = xm.model(wngrid=h.win.grid)
-            self._xref[key] = (np.array(gx), np.array(yx))
+            x = self._build(h.cfg, 'xsec')
+            gx, yx, _, _ = x.model.model(wngrid=h.win.grid)
+            clamp_possible = False
+            if self.kind != 'transmission':
+                # the cross-section emission branch zeroes transmittances once the optical depth is >= 10 at EVERY
+                # wavenumber of the evaluated grid (licensed); the k-table branch does not: no claim in that case
+                xm = x.model
+                col = np.sum(np.asarray(xm.contribution_list[0].sigma_xsec) *
+                             (np.asarray(xm.densityProfile) * np.asarray(xm.deltaz))[:, None], axis=0)
+                clamp_possible = bool(col.min() >= 10.0 - 1e-6)
+            self._xref[key] = (np.array(gx), np.array(yx), clamp_possible)
             mode_only('ktables', h.kset.path)
-        gx, yx = self._xref[key]
+        gx, yx, clamp_possible = self._xref[key]
+        if clamp_possible:
+            self.twin_skipped += 1
+            return
         ok = gx.shape == g.shape and np.allclose(gx, g, rtol=1e-12) and np.allclose(y, yx, rtol=1e-9, atol=0.0)
         self.ctx.verdict(self.twin_clause, bool(ok), cls='%s:%r:%s' % (self.name, h.kset, h.win.label),
                          detail='k-table %r vs cross-section %r on %r' % (y[:4].tolist(), yx[:4].tolist(), h.win),
